@@ -30,13 +30,78 @@ def entries():
     return out
 
 
+def apply_unified_diff(sources, patch_text):
+    """apply a git unified diff to the in-memory sources ({module: text}); returns the new mapping or
+    None if a hunk does not apply (the sources changed)"""
+    import re
+    out = dict(sources)
+    cur = None
+    hunks = {}
+    for line in patch_text.splitlines():
+        if line.startswith('+++ '):
+            m = re.match(r'\+\+\+ b/src/zope/testrunner/(\w+)\.py', line)
+            cur = m.group(1) if m else None
+            if cur is not None:
+                hunks.setdefault(cur, [])
+        elif line.startswith('@@') and cur is not None:
+            hunks[cur].append([])
+        elif cur is not None and hunks.get(cur) and (line[:1] in (' ', '+', '-') or line == '') and \
+                not line.startswith('--- ') and not line.startswith('diff '):
+            hunks[cur][-1].append(line if line else ' ')
+        elif line.startswith('diff '):
+            cur = None
+    for mod, hs in hunks.items():
+        if mod not in out:
+            return None
+        lines = out[mod].split('\n')
+        for h in hs:
+            before = [x[1:] for x in h if x[0] in (' ', '-')]
+            after = [x[1:] for x in h if x[0] in (' ', '+')]
+            pos = None
+            for i in range(len(lines) - len(before) + 1):
+                if lines[i:i + len(before)] == before:
+                    pos = i
+                    break
+            if pos is None:
+                return None
+            lines[pos:pos + len(before)] = after
+        out[mod] = '\n'.join(lines)
+    return out
+
+
+def seed_entries():
+    """the independently written breaking changes of /verif/seeded as variants"""
+    import json
+    out = []
+    d = os.path.join(HERE, 'seeded')
+    if not os.path.isdir(d):
+        return out
+    for sid in sorted(os.listdir(d)):
+        try:
+            meta = json.load(open(os.path.join(d, sid, 'meta.json')))
+            patch = open(os.path.join(d, sid, 'patch.diff')).read()
+        except OSError:
+            continue
+        by_prop = {}
+        for c in meta.get('caught_by', []):
+            by_prop.setdefault(c.split('.')[0], []).append(c)
+        for prop, rules in sorted(by_prop.items()):
+            out.append(('seed-' + sid, prop, '<patch>', patch, '', ','.join(rules)))
+    return out
+
+
 def run_variant(args):
     ident, prop, module, old, new, expected, sources = args
-    src = sources[module]
-    if src.count(old) < 1:
-        return ident, 'skipped', 'fragment not found in %s' % module
-    sources = dict(sources)
-    sources[module] = src.replace(old, new) if ident.startswith('all-') else src.replace(old, new, 1)
+    if module == '<patch>':
+        sources = apply_unified_diff(sources, old)
+        if sources is None:
+            return ident, 'skipped', 'patch does not apply to the current sources'
+    else:
+        src = sources[module]
+        if src.count(old) < 1:
+            return ident, 'skipped', 'fragment not found in %s' % module
+        sources = dict(sources)
+        sources[module] = src.replace(old, new) if ident.startswith('all-') else src.replace(old, new, 1)
     rep = report.Report(prop, 'selftest', 0, write=False)
     err = None
     try:
@@ -63,7 +128,8 @@ def run_variant(args):
 
 def run_for(prop=None, jobs=None, only=None):
     sources = srcmodel.load_sources()
-    todo = [e for e in entries() if (prop is None or e[1] == prop) and (only is None or only in e[0])]
+    todo = [e for e in entries() + seed_entries()
+            if (prop is None or e[1] == prop) and (only is None or only in e[0])]
     args = [e + (sources,) for e in todo]
     jobs = jobs or min(16, max(1, len(args)))
     res = []
